@@ -40,7 +40,7 @@ func frontendRoots(p *an.Prog) []Root {
 					continue
 				}
 				fv := an.FieldVar(fa.X.Type(), fa.Field)
-				if fv == nil || fv.Name() != "H" || fv.Pkg() == nil || fv.Pkg().Path() != mainPkg {
+				if fv == nil || an.CanonField(fa.X.Type(), fa.Field) != "H" || fv.Pkg() == nil || fv.Pkg().Path() != mainPkg {
 					continue
 				}
 				fs := funcValues(p, x.Val, 0)
